@@ -36,7 +36,14 @@ def alphabet(d):
     # a model that composes the memory form vs. one with an entry of its own
     fma = w("fma_mem.s", ["vfmadd231pd 32(%rdx,%rax), %ymm1, %ymm2", "vmovapd (%rdx), %ymm3",
                           "vaddpd %ymm2, %ymm3, %ymm1", "addq $32, %rax"])
+    # a write-back access whose roles come from the default rule (no ISA entry for ld1)
+    ld1 = w("ld1_post.s", ["ld1 {v0.2d, v1.2d}, [x1], #32", "fadd v2.2d, v0.2d, v1.2d",
+                           "str q2, [x3], #16", "subs x4, x4, #1", "b.ne .L1"])
+    # a kernel above the 50-line threshold of the multi-process dependency search
+    big = w("big55.s", ["addq $1, %%r%d" % (8 + i % 8) for i in range(55)])
     return {
+        "ld1-tx2": dict(path=ld1, isa="aarch64", arch="tx2", ignore_unknown=True),
+        "big-zen1": dict(path=big, isa="x86", arch="zen1"),
         "fma-ivb": dict(path=fma, isa="x86", arch="ivb"),
         "fma-hsw": dict(path=fma, isa="x86", arch="hsw"),
         "upd-zen1": dict(path=ex, isa="x86", arch="zen1"),
